@@ -17,7 +17,7 @@ from ..gen import NASTY
 from ..model import MPoint
 
 SHARDS = {"quick": 8, "thorough": 16}
-TIMEOUT = {"quick": 900, "thorough": 3600}
+TIMEOUT = {"quick": 1800, "thorough": 7200}
 N_POINTS = {"quick": 2500, "thorough": 100000}  # per shard
 
 DIALECTS = [
